@@ -66,11 +66,13 @@ def quantifier_shapes(name):
     ds = (None,) if R.is_classical(name) else (True, False)
     for q in A.QUANTS:
         for negated in (False, True):
-            core = ('Q', q, A.var(0), Fx)
-            s = A.neg(core) if negated else core
-            for d in ds:
-                for k in (0, 1, 2):
-                    yield dict(kind='quantifier', oper=q, negated=negated, designated=d, sentence=s, k=k)
+            # the body atomic and negated (an instance must be the body with the constant, not "its opposite")
+            for vname, body in (('', Fx), ('~', A.neg(Fx))):
+                core = ('Q', q, A.var(0), body)
+                s = A.neg(core) if negated else core
+                for d in ds:
+                    for k in (0, 1, 2):
+                        yield dict(kind='quantifier', oper=q, negated=negated, designated=d, sentence=s, k=k, variant=vname)
 
 
 def modal_shapes(name):
@@ -79,11 +81,12 @@ def modal_shapes(name):
     ds = (None,) if R.is_classical(name) else (True, False)
     for o in A.MODAL_OPS:
         for negated in (False, True):
-            core = A.op(o, PA)
-            s = A.neg(core) if negated else core
-            for d in ds:
-                for k in (0, 1, 2):
-                    yield dict(kind='modal', oper=o, negated=negated, designated=d, sentence=s, k=k)
+            for vname, operand in (('', PA), ('~', A.neg(PA))):
+                core = A.op(o, operand)
+                s = A.neg(core) if negated else core
+                for d in ds:
+                    for k in (0, 1, 2):
+                        yield dict(kind='modal', oper=o, negated=negated, designated=d, sentence=s, k=k, variant=vname)
 
 
 def shape_name(sh, fingerprint=False):
